@@ -1,4 +1,5 @@
 import CanVerif.Model.GenSem
+import CanVerif.Model.GenApi
 import Driver.OpsCompile
 import Driver.OpsPhys
 import Driver.OpsSocketcan
@@ -144,6 +145,12 @@ def opsGen : List String → Option (String × String)
         match unmarshalFrame m ⟨m.signals.map fun _ => 0⟩ f with
         | none => some ("err", "-")
         | some st => some (hx m.name ++ "|" ++ stateStr m st, "-")
+  | ["gapi", h] => do
+    match compileHex h with
+    | none => some ("not-in-class", "~")
+    | some db =>
+      let api := apiOf db
+      some (s!"ok deterministic,gofmt,vet api={bytesHex (api.toList.map fun c => UInt8.ofNat c.toNat)}", "-")
   | ["gdesc", h] => do
     match compileHex h with
     | none => some ("not-in-class", "~")
